@@ -1,6 +1,7 @@
 from core import Unit as U
 HASH = ["secp256k1_sha256_write", "secp256k1_sha256_finalize"]
 CTXDEF = ["USE_EXTERNAL_DEFAULT_CALLBACKS"]
+SELFTEST = ["--replace-calls", "secp256k1_selftest_sha256:verif_selftest_stub"]
 ORV = ["secp256k1_scalar_inverse_var", "secp256k1_scalar_mul", "secp256k1_ecmult", "secp256k1_gej_eq_x_var"]
 def CX(name, entry, functions, **kw):
     kw.setdefault("timeout", 600); kw.setdefault("unwind", 70); kw.setdefault("min_obl", 5)
@@ -8,13 +9,17 @@ def CX(name, entry, functions, **kw):
 UNITS = [
     CX("ctx_size", "h_ctx_size", ["secp256k1_context_preallocated_size", "secp256k1_context_preallocated_clone_size"]),
     CX("ctx_create", "h_ctx_create", ["secp256k1_context_create", "secp256k1_context_preallocated_create", "secp256k1_selftest", "secp256k1_ecmult_gen_context_build", "checked_malloc"],
-       note="malloc/free counted by wrappers; default callbacks external (USE_EXTERNAL_DEFAULT_CALLBACKS)"),
+       extra_instrument=[SELFTEST], assumed=["secp256k1_selftest_sha256"], unwind=300,
+       note="malloc/free counted by wrappers; default callbacks external (USE_EXTERNAL_DEFAULT_CALLBACKS); self test of the built-in compression assumed to pass (see harness)"),
     CX("ctx_clone", "h_ctx_clone", ["secp256k1_context_clone", "secp256k1_context_preallocated_clone"]),
     CX("ctx_destroy", "h_ctx_destroy", ["secp256k1_context_destroy", "secp256k1_context_preallocated_destroy"]),
     CX("ctx_randomize", "h_ctx_randomize", ["secp256k1_context_randomize", "secp256k1_ecmult_gen_blind"],
        replace=HASH + ["secp256k1_ecmult_gen", "secp256k1_ge_set_gej"], assumed=["secp256k1_ecmult_gen", "secp256k1_ge_set_gej"],
+       unwind=300,
        note="hash stream contracts (C05) and frame contracts of ecmult_gen / ge_set_gej replace the calls; the frame 'writes only ecmult_gen_ctx' is over the real blind code"),
-    CX("ctx_setters", "h_ctx_setters", ["secp256k1_context_set_illegal_callback", "secp256k1_context_set_error_callback", "secp256k1_context_set_sha256_compression", "secp256k1_selftest_sha256"]),
+    CX("ctx_setters", "h_ctx_setters", ["secp256k1_context_set_illegal_callback", "secp256k1_context_set_error_callback", "secp256k1_context_set_sha256_compression"],
+       extra_instrument=[SELFTEST], assumed=["secp256k1_selftest_sha256"],
+       note="self test replaced by a stub with arbitrary verdict for a user candidate (DFCC havocs the non-const static pointer the real one reads through)"),
     # (ii) static-context gates: all 19 entry points that need ecmult_gen
     U("C20.gate_core", ["C20"], "harness/C20/gates.c", "h_gate_core", unwind=70, timeout=600, min_obl=20,
       functions=["secp256k1_ec_pubkey_create", "secp256k1_ecdsa_sign", "secp256k1_ecdsa_sign_recoverable", "secp256k1_keypair_create", "secp256k1_schnorrsig_sign32", "secp256k1_schnorrsig_sign_custom", "secp256k1_ellswift_create"]),
@@ -25,14 +30,14 @@ UNITS = [
     U("C20.gate_zkp2", ["C20"], "harness/C20/gates.c", "h_gate_zkp2", unwind=70, timeout=600, min_obl=15,
       functions=["secp256k1_rangeproof_sign", "secp256k1_rangeproof_rewind", "secp256k1_surjectionproof_generate", "secp256k1_whitelist_sign", "secp256k1_schnorrsig_aggverify"]),
     # (iii) results under arbitrary initial static state
-    U("C20.static_state_sig", ["C20"], "harness/C20/state.c", "h_static_state_sig", unwind=82, timeout=600, min_obl=8, replay=True,
-      functions=["secp256k1_ecdsa_signature_serialize_der", "secp256k1_ecdsa_sig_serialize", "secp256k1_ecdsa_signature_serialize_compact"],
-      note="DFCC havocs every static-lifetime object at entry: the functional postcondition holds for every prior static state"),
+    U("C20.static_state_compact", ["C20"], "harness/C20/state.c", "h_static_state_compact", unwind=70, timeout=300, min_obl=3, replay=True,
+      functions=["secp256k1_ecdsa_signature_serialize_compact", "secp256k1_ecdsa_signature_load", "secp256k1_scalar_get_b32"],
+      note="DFCC havocs every static-lifetime object at entry: the functional postcondition holds for every prior static state (DER: C03.der.serialize, tagged C20)"),
     # (iv) const-context frames
     U("C20.frame_ecdsa_verify", ["C20"], "harness/C20/frames.c", "h_frame_ecdsa_verify", unwind=70, timeout=600, min_obl=20,
       replace=ORV, assumed=ORV, functions=["secp256k1_ecdsa_verify"]),
     U("C20.frame_pubkey_parse", ["C20"], "harness/C20/frames.c", "h_frame_pubkey_parse", unwind=72, timeout=900, min_obl=20, slice_formula=True,
-      functions=["secp256k1_ec_pubkey_parse"]),
+      replace=["secp256k1_ge_set_xo_var", "secp256k1_ge_is_valid_var"], assumed=["secp256k1_ge_is_valid_var"], functions=["secp256k1_ec_pubkey_parse", "secp256k1_eckey_pubkey_parse"]),
     U("C20.frame_pubkey_serialize", ["C20"], "harness/C20/frames.c", "h_frame_pubkey_serialize", unwind=82, timeout=600, min_obl=20, slice_formula=True,
       functions=["secp256k1_ec_pubkey_serialize"]),
     U("C20.frame_schnorrsig_verify", ["C20"], "harness/C20/frames.c", "h_frame_schnorrsig_verify", unwind=70, timeout=900, min_obl=20, slice_formula=True,
